@@ -18,6 +18,9 @@ def run(ctx):
         dscommon.run_family(ctx, "C01Three", fmt="text", limit=300)
         dscommon.run_family(ctx, "C01Clim", fmt="text", limit=300)
         dscommon.run_family(ctx, "C01Mid", fmt="text", limit=400)
+        # the same menu on ONE Data object, as a single command does (several inputs and requests share the caches)
+        dscommon.run_family(ctx, "C01ClimNoObs", fmt="text", limit=300, fresh=False)
+        dscommon.run_family(ctx, "C01Clim", fmt="text", limit=200, fresh=False)
         ctx.exhaustive = False
     else:
         dscommon.run_family(ctx, "C01Full", fmt="text", timeout_s=1500)
@@ -25,6 +28,10 @@ def run(ctx):
         dscommon.run_family(ctx, "C01Three", fmt="text")
         dscommon.run_family(ctx, "C01Clim", fmt="text")
         dscommon.run_family(ctx, "C01Mid", fmt="text")
+        dscommon.run_family(ctx, "C01ClimNoObs", fmt="text", fresh=False)
+        dscommon.run_family(ctx, "C01ClimNoObs", fmt="text", fresh=True)
+        dscommon.run_family(ctx, "C01Clim", fmt="text", fresh=False)
+        dscommon.run_family(ctx, "C01NoObs", fmt="text", fresh=False)
         dscommon.run_family(ctx, "C01Quick", fmt="netcdf")
         ctx.exhaustive = True
     par.clean_workdirs()
